@@ -454,11 +454,88 @@ func c15FanOut(r *core.Run) {
 		})
 }
 
+// c15Reuse: ONE caller buffer is used for all arguments of a history (Has, Add, Delete), overwritten in
+// place between the calls.
+type c15Reuse struct {
+	Words []core.S `json:"members"`
+	Args  []core.S `json:"arguments_in_order"`
+}
+
+func c15BufferReuse(r *core.Run) {
+	words := [][]string{{"acgt", "ggca"}, {"ab", "abc", "b"}, {"a"}, {}}
+	probes := []string{"", "a", "b", "ab", "ac", "abc", "acgt", "tttt", "ggca", "ggc", "acg", "bb"}
+	core.Clause(r, "arguments-in-one-reused-buffer", core.Opts{Rule: "every ordered triple of probes from a menu of 12 is passed to Has through ONE caller buffer that is overwritten in place between the calls (same address; same or another length), on each of 4 member sets; then the same buffer is used for Add and Delete and Has again: every answer is the set model's (a trie that remembers its argument by address instead of by content shows here); non-trivial = all",
+		Bounds: "4 member sets x 12^3 probe triples"},
+		func(emit func(c15Reuse) bool) {
+			for _, ws := range words {
+				for _, a := range probes {
+					for _, b := range probes {
+						for _, c := range probes {
+							if !emit(c15Reuse{core.SS(ws...), core.SS(a, b, c)}) {
+								return
+							}
+						}
+					}
+				}
+			}
+		},
+		func(c c15Reuse) core.Outcome {
+			var fail string
+			p := catch(func() {
+				t := trie.New()
+				m := ref.TrieSet{}
+				for _, w := range c.Words {
+					t.Add([]byte(w))
+					m.Add(string(w))
+				}
+				buf := make([]byte, 8)
+				use := func(x core.S) []byte {
+					n := copy(buf, x)
+					return buf[:n]
+				}
+				for round := 0; round < 2 && fail == ""; round++ {
+					for i, x := range c.Args {
+						if got, want := t.Has(use(x)), m.Has(string(x)); got != want {
+							fail = fmt.Sprintf("round %d: Has(%q) through the reused buffer (call %d of %q) = %v, model %v", round, x, i+1, c.Args, got, want)
+							return
+						}
+					}
+					// the same buffer as the argument of Add and Delete
+					x := c.Args[round%len(c.Args)]
+					if len(x) > 0 {
+						t.Add(use(x))
+						m.Add(string(x))
+						use(c.Args[(round+1)%len(c.Args)]) // the caller moves on
+						for _, y := range c.Args {
+							if got, want := t.Has(use(y)), m.Has(string(y)); got != want {
+								fail = fmt.Sprintf("after Add(%q) through the reused buffer: Has(%q) = %v, model %v", x, y, got, want)
+								return
+							}
+						}
+						if got, want := t.Delete(use(x)), m.Delete(string(x)); got != want {
+							fail = fmt.Sprintf("Delete(%q) through the reused buffer = %v, model %v", x, got, want)
+							return
+						}
+					}
+				}
+				fail = observeTrie(t, m, []string{"", "a", "ab", "abc", "acgt", "ggca", "tttt", "b"}, "at the end")
+			})
+			if p != "" {
+				return core.Failf("members %q, arguments %q through one reused buffer: panic: %s", c.Words, c.Args, p)
+			}
+			if fail != "" {
+				return core.Failf("members %q: %s", c.Words, fail)
+			}
+			return core.Outcome{Class: fmt.Sprint("members=", len(c.Words)), Nontrivial: true, Evals: 12}
+		})
+}
+
 func runC15(r *core.Run) {
 	defer racePass(r, "race-C15", "Has, ForEach and MarshalJSON on one shared trie")
 
 	c15AllBytes(r)
 	c15FanOut(r)
+	c15BufferReuse(r)
 	type cfg struct {
 		sigma string
 		d     int
